@@ -27,7 +27,7 @@ def cases(rng, tier):
         kw = rng.sample(range(len(gl.KW_POOL)), rows) if per_row else None
         shared = rng.randrange(len(gl.KW_POOL))
         out.append({'kind': 'g2d/' + ('list' if per_row else 'dict'), 'rows': rows, 'sig_ids': rng.sample(range(40), rows),
-                    'kw': kw, 'shared': shared, 'n_jobs': rng.choice([1, 2, rows, rows + 3]),
+                    'kw': kw, 'shared': shared, 'n_jobs': rng.choice([1, 2, rows, rows + 3, -1]),
                     'progress': rng.choice([None, None, 'tqdm']), 'schedule': rng.choice(['reverse', 'first_slow', 'zigzag', 'none']),
                     'return_samples': rng.random() < 0.7, 'via': (rng.choice(['func', 'func', 'group']) if kw is None else 'func')})
     return out
@@ -99,7 +99,7 @@ def nontrivial(c, o):
 
 
 def kind_of(c, o):
-    return '%s/%s/jobs%s' % (c['kind'], c['schedule'], 'gt' if c['n_jobs'] > c['rows'] else c['n_jobs'])
+    return '%s/%s/jobs%s' % (c['kind'], c['schedule'], 'gt' if c['n_jobs'] > c['rows'] else ('all' if c['n_jobs'] == -1 else c['n_jobs']))
 
 
 def coq_case(c, o):
